@@ -119,10 +119,7 @@ func Canon(g *d2graph.Graph) CGraph {
 		return cg
 	}
 	for _, o := range g.Objects {
-		p := o.AbsIDArray()
-		if p == nil {
-			p = []string{}
-		}
+		p := valPath(o)
 		cg.Objs = append(cg.Objs, CObj{ID: o.AbsID(), Path: p, Label: o.Label.Value, Attrs: attrKVs(&o.Attributes, false)})
 	}
 	for _, e := range g.Edges {
@@ -144,12 +141,21 @@ func Canon(g *d2graph.Graph) CGraph {
 			}
 		}
 		sort.Slice(at, func(i, j int) bool { return at[i][0] < at[j][0] })
-		cg.Edges = append(cg.Edges, CEdge{ID: e.AbsID(), Src: e.Src.AbsIDArray(), Dst: e.Dst.AbsIDArray(),
+		cg.Edges = append(cg.Edges, CEdge{ID: e.AbsID(), Src: valPath(e.Src), Dst: valPath(e.Dst),
 			SA: e.SrcArrow, DA: e.DstArrow, Idx: e.Index, Label: e.Label.Value, Attrs: at})
 	}
 	sort.SliceStable(cg.Objs, func(i, j int) bool { return cg.Objs[i].ID < cg.Objs[j].ID })
 	sort.SliceStable(cg.Edges, func(i, j int) bool { return cg.Edges[i].ID < cg.Edges[j].ID })
 	return cg
+}
+
+// valPath is the object's absolute path as d2-syntax ID segments (what d2graph.Key returns for a parsed key).
+func valPath(o *d2graph.Object) []string {
+	p := []string{}
+	for ; o != nil && o.Parent != nil; o = o.Parent {
+		p = append([]string{o.ID}, p...)
+	}
+	return p
 }
 
 type CBoard struct {
